@@ -283,6 +283,32 @@ def fft_case(case, res):
 
 
 def names_case(case, res):
+    # "lazily" also for arrays of high rank: building the graph must not transform a large probe array
+    import tracemalloc
+    xr = da.from_array(np.arange(2.0 ** 8).reshape((2,) * 8) + 0j, chunks=(2,) * 8)
+    for nm in ("fft", "ifft", "rfft", "fftn", "hfft"):
+        xin = xr.real if nm in ("rfft",) else xr
+        tracemalloc.start()
+        try:
+            out = getattr(pb.fft, nm)(xin)
+            peak = tracemalloc.get_traced_memory()[1]
+        except Exception as e:
+            tracemalloc.stop()
+            res.violation(f"pb.fft.{nm}|rank 8|raised", f"{type(e).__name__}: {e}", case, {"name": nm})
+            continue
+        tracemalloc.stop()
+        res.transitions += 1
+        want = getattr(scipy.fft, nm)(np.asarray(xin))
+        if not isinstance(out, da.Array) or out.dtype != want.dtype or out.shape != want.shape:
+            res.violation(f"pb.fft.{nm}|rank 8|advertised", f"{getattr(out, 'dtype', None)}/{getattr(out, 'shape', None)} vs "
+                          f"{want.dtype}/{want.shape}", case, {"name": nm})
+        elif peak > 32 * 2 ** 20:
+            res.violation(f"pb.fft.{nm}|rank 8|work done while building the graph", f"building the lazy transform of a 256-element array "
+                          f"of rank 8 allocated {peak / 2 ** 20:.0f} MiB", case, {"name": nm})
+        elif not np.allclose(out.compute(), want):
+            res.violation(f"pb.fft.{nm}|rank 8|values", "differs from scipy.fft", case, {"name": nm})
+        else:
+            res.hits["high rank stays lazy"] += 1
     res.transitions += 1
     res.traces += 1
     res.state("names")
@@ -491,7 +517,7 @@ def main(argv=None):
     return report.run_check(
         PID, gen_cases=gen_cases, check_case=check_case, describe=describe,
         required_hits=["buffer overwritten between calls", "optional arguments omitted / spelled", "Quantity input", "dask lazy result", "reference raises: pb raises too", "unknown name -> AttributeError",
-                       "tone under the right label", "truncated tail", "odd nperseg", "nperseg == length", "nperseg with a prime factor above 11",
+                       "tone under the right label", "truncated tail", "odd nperseg", "nperseg == length", "nperseg with a prime factor above 11", "high rank stays lazy",
                        "non-center alignment on even nchan"],
         assumptions=["scipy.fft.<name> is the statement's reference; numpy.fft and the long-double DFT definition are independent "
                      "cross-checks, and calls on which they disagree with scipy are unconstrained",
